@@ -977,7 +977,8 @@ def g5(ctx, res):
               "for attr_name, attr_value in type(self).__properties__(value).items()",
               reason="the instance is populated from the per-key resolved and validated members")
     pcall = ctx.func("Properties.__call__")
-    res.check(has("self[MV_k](MV_v)", pcall), pcall, "self[key](sub_value)", reason="each member is validated by its resolved property")
+    res.judge(True if has("self[MV_k](MV_v)", V(ctx, pcall).body) else None, pcall, "self[key](sub_value)",
+              reason="each member is validated by its resolved property")
     icall = ctx.func("Items.__call__")
     res.judge(True if has("self[MV_i](MV_v, MV__)", V(ctx, icall).body) else None, icall, "self[index](sub_value, ...)",
               reason="each item is validated by its resolved element")
@@ -1173,7 +1174,7 @@ def g7(ctx, res):
     def classify(p):
         if p.exit != "return":
             return p.exit
-        t = norm(p.exit_node.value)
+        t = norm(ret_expr(p))
         if t == "self.element.annotation":
             return "bare"
         if t in ("f'Maybe[{self.element.annotation}]'", "'Maybe[' + self.element.annotation + ']'", "'Maybe[{}]'.format(self.element.annotation)"):
@@ -1244,9 +1245,22 @@ def g8(ctx, res):
                   reason="the built-in format is registered under its Draft-6 name")
     # each built-in answers with a bool on every path
     for nm, f in sorted(regs.items()):
-        rets = [n for n in walk_own(f.body) if isinstance(n, ast.Return)]
-        res.check(bool(rets) and all(isinstance(r.value, ast.Constant) and isinstance(r.value.value, bool) for r in rets)
-                  and always_exits(f.body), f, "returns True / False on every path",
+        vfb = V(ctx, f).body
+        rets = [ret_expr(p_) for p_ in enumerate_paths(vfb) if p_.exit == "return"]
+        falls = [p_ for p_ in enumerate_paths(vfb) if p_.exit == "fall"]
+
+        def boolish(e):
+            if isinstance(e, ast.Constant) and isinstance(e.value, bool):
+                return True
+            if isinstance(e, (ast.Compare,)) or (isinstance(e, ast.UnaryOp) and isinstance(e.op, ast.Not)):
+                return True
+            return isinstance(e, ast.Call) and dotted(e.func) in ("bool", "isinstance")
+        all_bool = bool(rets) and all(e is not None and boolish(e) for e in rets) and not falls
+        non_bool = [norm(e) if e is not None else "None" for e in rets if e is None or not boolish(e)]
+        definitely_not = any(isinstance(e, ast.Constant) and not isinstance(e.value, bool) for e in rets if e is not None) or bool(falls) \
+            or any(e is None for e in rets)
+        res.judge(True if all_bool else (False if definitely_not else None), f, "returns True / False on every path",
+                  detail={"other_returns": non_bool},
                   reason="a checker either accepts or rejects")
 
 
@@ -1384,7 +1398,36 @@ def g10(ctx, res):
               f"if type({other}) is not type(self):\n    return False",
               f"if type(self) is not type({other}):\n    return False",
               f"if type({other}) != type(self):\n    return False"]
-    res.check(any(has(i, eq) for i in idioms), eq, "if not isinstance(other, self.__class__): return False",
+    GUARDS = [f"isinstance({other}, self.__class__)", f"isinstance({other}, type(self))", f"type({other}) is type(self)",
+              f"type(self) is type({other})", f"type({other}) == type(self)", f"type(self) == type({other})"]
+    REVERSED = [f"isinstance(self, {other}.__class__)", f"isinstance(self, type({other}))"]
+
+    def rec_guard(e):
+        t_, p_ = strip_not(e)
+        if any(match(_parse(g_), t_) is not None for g_ in GUARDS):
+            return ("SAME", p_)
+        c_ = cmp_atom(e)
+        if c_ and c_[1] in ("is not", "!=") and {c_[0], c_[2]} == {f"type({other})", "type(self)"}:
+            return ("SAME", False)
+        return None
+
+    def lab_guard(p_):
+        e_ = ret_expr(p_)
+        if e_ is None:
+            return p_.exit
+        if isinstance(e_, ast.Constant):
+            return repr(e_.value)
+        # `return <guard> and <comparison>`
+        if isinstance(e_, ast.BoolOp) and isinstance(e_.op, ast.And) and rec_guard(e_.values[0]) == ("SAME", True):
+            return "guard-and-compare"
+        return "compare"
+    tbl_g, opq_g = decision_table(V(ctx, eq).body, ["SAME"], rec_guard, lab_guard)
+    guard_ok = tbl_g.get((False,)) == {"False"} and tbl_g.get((True,)) and "False" not in tbl_g.get((True,), set())
+    if tbl_g.get((True,)) == {"guard-and-compare"} and tbl_g.get((False,)) == {"guard-and-compare"}:
+        guard_ok = True
+    reversed_form = any(has(r_, eq) for r_ in REVERSED)
+    res.judge(True if (guard_ok and not reversed_form) else (False if (reversed_form or not opq_g) else None), eq,
+              "if not isinstance(other, self.__class__): return False",
               reason="with CPython's subclass-first reflected comparison this class guard gives exact-type, symmetric equality "
                      "(the reversed form isinstance(self, other.__class__) would make Element() == Nothing())")
     # which attributes are compared?
@@ -1407,7 +1450,7 @@ def g10(ctx, res):
                     attrs.add(t.attr)
     attrs.discard("properties")
     # the attribute view compared on both sides: a lambda, a nested def or a module-level helper H with H(self) == H(other)
-    candidates = [g for g in eq.lambdas] + list(eq.nested.values())
+    candidates = [eq] + [g for g in eq.lambdas] + list(eq.nested.values())
     for node, b in find(f"MV_h(self) == MV_h({other})", eq):
         if isinstance(b["MV_h"], ast.Name):
             r = ctx.prog.resolve_in(eq, b["MV_h"].id)
@@ -1415,6 +1458,8 @@ def g10(ctx, res):
                 candidates.append(r[1])
     keepers = None  # list of (test, polarity, var)
     for g in candidates:
+        if keepers is not None:
+            break   # the flattened body of __eq__ itself comes first and is the most informative
         for bld in builders(V(ctx, g).body):
             if bld.kind == "dict" and has("vars(MV_x).items()", bld.iter) and isinstance(bld.target, ast.Tuple):
                 var = norm(bld.target.elts[0])
@@ -1450,8 +1495,20 @@ def g10(ctx, res):
             raise AnalysisError(f"Element.__eq__: cannot evaluate the attribute filter for {a!r}")
         res.check(keep, eq, f"attribute {a} is compared", reason="equality inspects every attribute a constructor stores")
     res.floor("configuration_attributes", len(attrs), 28)
-    res.judge(True if (has(f"return MV_f(self) == MV_f({other})", eq) or has(f"return vars(self) == vars({other})", eq)) else None, eq,
-              "return pub_vars(self) == pub_vars(other)", reason="the filtered attribute dicts are compared for equality")
+    # some returning path yields the comparison of the two (equally filtered) attribute views
+    cmp_ok = None
+    for p_ in enumerate_paths(V(ctx, eq).body):
+        e_ = ret_expr(p_)
+        if e_ is None:
+            continue
+        for x in ast.walk(e_):
+            if isinstance(x, ast.Compare) and len(x.ops) == 1 and isinstance(x.ops[0], ast.Eq):
+                l_, r_ = norm(x.left), norm(x.comparators[0])
+                if "vars(self)" in l_ and f"vars({other})" in r_ and l_.replace("vars(self)", "V") == r_.replace(f"vars({other})", "V"):
+                    cmp_ok = True
+                if match(_parse(f"MV_f(self) == MV_f({other})"), x) is not None:
+                    cmp_ok = True
+    res.judge(cmp_ok, eq, "return pub_vars(self) == pub_vars(other)", reason="the filtered attribute dicts are compared for equality")
     for c in element_family(ctx):
         for dunder in ("__eq__", "__ne__", "__hash__"):
             if dunder in c.methods and c.name not in ("Element", "ObjectMeta"):
@@ -1466,9 +1523,24 @@ def g10(ctx, res):
     for p in init.params[1:]:
         res.check(has(f"self.{p.name} == {other}.{p.name}", peq), peq, f"self.{p.name} == other.{p.name}",
                   reason="property equality covers every constructor field")
-    guard_ok = has(f"if not isinstance({other}, _Property):\n    return False", peq) or any(
-        isinstance(n, ast.Return) and isinstance(n.value, ast.BoolOp) and isinstance(n.value.op, ast.And)
-        and norm(n.value.values[0]) == f"isinstance({other}, _Property)" for n in walk_own(peq.body))
+    def rec_pg(e):
+        ia_ = isinstance_atom(e)
+        if ia_ and ia_[0] == other and ia_[1] == ["_Property"]:
+            return ("ISPROP", ia_[2])
+        return None
+
+    def lab_pg(p_):
+        e_ = ret_expr(p_)
+        if e_ is None:
+            return p_.exit
+        if isinstance(e_, ast.Constant):
+            return repr(e_.value)
+        if isinstance(e_, ast.BoolOp) and isinstance(e_.op, ast.And) and rec_pg(e_.values[0]) == ("ISPROP", True):
+            return "guard-and"
+        return "compare"
+    tbl_p, opq_p = decision_table(V(ctx, peq).body, ["ISPROP"], rec_pg, lab_pg)
+    guard_ok = (tbl_p.get((False,)) == {"False"} and "False" not in tbl_p.get((True,), {"False"})) or \
+        (tbl_p.get((True,)) == {"guard-and"} and tbl_p.get((False,)) == {"guard-and"})
     res.judge(True if guard_ok else None, peq, "isinstance(other, _Property) guard",
               reason="a property only equals a property")
 
@@ -1477,76 +1549,86 @@ def g10(ctx, res):
 @rule("G11", "class cycles are tested before anything is yielded and refused with the schema-parse error")
 def g11(ctx, res):
     od = ctx.func("orderer")
-    yields = [n for n in walk_own(od.body) if isinstance(n, (ast.Yield, ast.YieldFrom))]
-    if not yields:
+    # closures and private helpers flattened into one body
+    vod = [st for st in V(ctx, od, keep=("object_dependencies", "object_classes")).body if not isinstance(st, ast.FunctionDef)]
+    if not any(isinstance(n, (ast.Yield, ast.YieldFrom)) for n in walk_own(vod)):
         raise AnalysisError("orderer no longer yields")
-    raise_idx = None
-    for i, st in enumerate(od.body):
+    D = "object_dependencies"
+    # (a) the refusal dominates the first yield
+    raise_idx = cyc_test = None
+    for i, st in enumerate(vod):
         if isinstance(st, ast.If) and not st.orelse and any(
                 isinstance(x, ast.Raise) and x.exc is not None and norm(x.exc) == "SchemaParseError.unresolvable_declaration()"
                 for x in st.body) and always_exits(st.body):
-            raise_idx = i
-            cyc_test = st.test
-    first_yield_idx = min(i for i, st in enumerate(od.body) if any(isinstance(x, (ast.Yield, ast.YieldFrom)) for x in ast.walk(st))
-                          and not isinstance(st, (ast.FunctionDef,)))
-    res.check(raise_idx is not None and raise_idx < first_yield_idx, od, "if cycles: raise SchemaParseError.unresolvable_declaration()",
+            raise_idx, cyc_test = i, st.test
+            break
+    yield_idx = [i for i, st in enumerate(vod) if any(isinstance(x, (ast.Yield, ast.YieldFrom)) for x in ast.walk(st))]
+    res.judge(True if (raise_idx is not None and yield_idx and raise_idx < min(yield_idx)) else
+              (False if (raise_idx is None or (yield_idx and raise_idx > min(yield_idx))) else None), od,
+              "if cycles: raise SchemaParseError.unresolvable_declaration()",
               reason="the cycle refusal dominates the first yield")
     if raise_idx is None:
         return
-    vod = V(ctx, od, keep=("object_dependencies", "object_classes")).body
-    CYCLIC = ["has_cycle(MV_n)", "MV_n in object_dependencies[MV_n]", "MV_n in MV_deps"]
-
+    bs = builders(vod)
+    # (b) cyclic = self-reachable in the dependency table
     def cyclic_builder(b):
-        gt = b.guards
-        if len(gt) != 1 or not gt[0][1]:
+        if len(b.guards) != 1 or not b.guards[0][1]:
             return False
-        t = gt[0][0]
-        over_items = has("object_dependencies.items()", b.iter) and isinstance(b.target, ast.Tuple)
-        over_keys = norm(b.iter) in ("object_dependencies", "object_dependencies.keys()", "list(object_dependencies)")
-        if over_keys:
+        t = norm(b.guards[0][0])
+        if norm(b.iter) in (D, f"{D}.keys()", f"list({D})"):
             n_ = norm(b.target)
-            return norm(t) in (f"has_cycle({n_})", f"{n_} in object_dependencies[{n_}]") and norm(b.elt) == n_
-        if over_items:
+            return t == f"{n_} in {D}[{n_}]" and norm(b.elt) == n_
+        if norm(b.iter) == f"{D}.items()" and isinstance(b.target, ast.Tuple) and len(b.target.elts) == 2:
             n_, d_ = norm(b.target.elts[0]), norm(b.target.elts[1])
-            return norm(t) in (f"{n_} in {d_}", f"has_cycle({n_})", f"{n_} in object_dependencies[{n_}]") and norm(b.elt) == n_
+            return t in (f"{n_} in {d_}", f"{n_} in {D}[{n_}]") and norm(b.elt) == n_
         return False
     okc = None
-    cyc_text = norm(cyc_test)
-    for b in builders(od.body):
+    cyc_names = {norm(cyc_test)}
+    for b in bs:
         if cyclic_builder(b):
-            if b.name and b.name == cyc_text:
+            if (b.name and b.name in cyc_names) or (b.node is not None and any(x is b.node for x in ast.walk(cyc_test))):
                 okc = True
-            elif b.node is not None and any(x is b.node for x in ast.walk(cyc_test)):
-                okc = True
-    if okc is None and has("any((has_cycle(MV_n) for MV_n in object_dependencies))", cyc_test):
+    if okc is None and match(_parse(f"any((MV_n in {D}[MV_n] for MV_n in {D}))"), cyc_test) is not None:
         okc = True
-    res.judge(okc, od, "cycles = every name for which has_cycle(name)", reason="every class is tested for self-reachability")
-    hc = od.nested.get("has_cycle")
-    if hc is not None:
-        res.judge(True if has(f"return {hc.params[0].name} in object_dependencies[{hc.params[0].name}]", hc) else None, od,
-                  "has_cycle(name): name in object_dependencies[name]", reason="a class is cyclic iff it is among its own transitive dependencies")
-    okd = False
-    for node, b in find("object_dependencies = {MV_c.__name__: [MV_d.__name__ for MV_d in get_children(MV_c) if isinstance(MV_d, ObjectMeta)] for MV_c in MV_cs}", od):
-        okd = True
-    res.check(okd, od, "object_dependencies[name] = names of ObjectMeta among get_children(class)",
+    res.judge(okc, od, "cycles = every name that is among its own dependencies",
+              reason="every class is tested for self-reachability")
+    # (c) the dependency table holds the TRANSITIVE object-class children, by name
+    okd = None
+    for b in bs:
+        is_table = b.kind == "dict" and b.name == D and b.key is not None
+        if not is_table:
+            continue
+        c_ = norm(b.target)
+        key_ok = norm(b.key) == f"{c_}.__name__" or (isinstance(b.key, ast.Name) and has(f"{b.key.id} = {c_}.__name__", vod))
+        inner = [ib for ib in builders([ast.Expr(value=b.elt)]) if ib.kind == "list"] if isinstance(b.elt, ast.ListComp) else \
+            [ib for ib in bs if isinstance(b.elt, ast.Name) and ib.name == b.elt.id]
+        for ib in inner:
+            dn = norm(ib.target)
+            good = key_ok and norm(ib.iter) == f"get_children({c_})" and norm(ib.elt) == f"{dn}.__name__" \
+                and ib.guard_texts() == [f"isinstance({dn}, ObjectMeta)"]
+            okd = good if okd is None else (okd and good)
+    res.judge(okd, od, "object_dependencies[name] = names of ObjectMeta among get_children(class)",
               reason="dependencies are the TRANSITIVE children (get_children recurses), so self-reachability detects every cycle")
-    pop = od.nested.get("pop_name")
-    nxt = od.nested.get("_next")
-    res.check(pop is not None and has(f"del object_dependencies[{pop.params[0].name}]", pop), od, "del object_dependencies[name]",
-              reason="each emitted class is removed, so the loop makes progress")
+    # (d) progress and (e) what is emitted next
+    whiles = [n for n in walk_own(vod) if isinstance(n, ast.While)]
+    loop_ok = len(whiles) == 1 and any(isinstance(x, ast.Yield) for x in ast.walk(whiles[0]))
+    res.judge(True if loop_ok else None, od, "while True: yield _next()", reason="classes are emitted one at a time")
+    if not loop_ok:
+        return
+    wb = whiles[0].body
+    dels = [x for x in walk_own(wb) if isinstance(x, ast.Delete) and any(isinstance(t, ast.Subscript) and norm(t.value) == D for t in x.targets)]
+    res.judge(True if dels else None, od, "del object_dependencies[name]", reason="each emitted class is removed, so the loop makes progress")
     okn = None
-    if nxt is not None:
-        vn = V(ctx, nxt).body
-        forms = ["return pop_name(next(map(lambda MV_a: MV_a[0], filter(lambda MV_b: not MV_b[1], object_dependencies.items()))))",
-                 "return pop_name(next((MV_n for MV_n, MV_d in object_dependencies.items() if not MV_d)))",
-                 "return pop_name(next((MV_n for MV_n in object_dependencies if not object_dependencies[MV_n])))"]
-        if any(has(fm, vn) for fm in forms):
+    picked = None
+    FORMS = [f"next(map(lambda MV_a: MV_a[0], filter(lambda MV_b: not MV_b[1], {D}.items())))",
+             f"next((MV_n for MV_n, MV_d in {D}.items() if not MV_d))",
+             f"next((MV_n for MV_n in {D} if not {D}[MV_n]))"]
+    for x in walk_own(wb):
+        if isinstance(x, ast.Call) and any(match(_parse(fm), x) is not None for fm in FORMS):
             okn = True
-        elif has("return pop_name(next(iter(object_dependencies)))", vn):
+        if isinstance(x, ast.Call) and match(_parse(f"next(iter({D}))"), x) is not None:
             okn = False
     res.judge(okn, od, "_next(): a class with no remaining dependencies", reason="only a class whose dependencies were all emitted is emitted")
-    whiles = [n for n in walk_own(od.body) if isinstance(n, ast.While)]
-    res.check(len(whiles) == 1 and has("yield _next()", whiles[0].body), od, "while True: yield _next()", reason="classes are emitted one at a time")
     goc = ctx.func("get_object_classes")
     res.check(has("isinstance(MV_e, ObjectMeta)", goc) and has("get_children(MV_e)", goc) and has("list(MV_es)", goc), goc,
               "roots + all children, filtered to object classes", reason="every reachable object class is collected")
@@ -1554,6 +1636,69 @@ def g11(ctx, res):
     res.check(has("if id(MV_e) in MV_s:\n    yield MV_e\n    return", gc) and has("MV_s.add(id(MV_e))", gc), gc,
               "identity-based seen set", reason="the walk terminates on shared and cyclic structures and still reports the revisited node")
 
+
+
+def props_call_model(ctx):
+    """Semantic model of Properties.__call__: the mapping that is iterated is the input merged over placeholders
+    for the declared properties.  -> dict (fields None where the shape is not recognised)."""
+    pc = ctx.func("Properties.__call__")
+    v = pc.params[1].name
+    out = {"func": pc, "v": v, "merged": None, "placeholders": [], "overrides_last": None, "result": None}
+    for keep in ((v,), ()):
+        vb = V(ctx, pc, keep=keep).body
+        bs = builders(vb)
+        merged = None
+        names = set()
+        for n in walk_own(vb):
+            if isinstance(n, ast.Dict) and n.keys and all(k is None for k in n.keys) and any(norm(x) == v for x in n.values):
+                merged = n
+        if merged is None:
+            continue
+        par_names = {v}
+        for st in walk_own(vb):
+            if isinstance(st, (ast.Assign, ast.AnnAssign)) and st.value is merged:
+                tg = st.targets[0] if isinstance(st, ast.Assign) else st.target
+                if isinstance(tg, ast.Name):
+                    names.add(tg.id)
+        iter_texts = {f"{nm}.items()" for nm in names} | {norm(merged) + ".items()", f"({norm(merged)}).items()"}
+        out["merged"] = merged
+        out["overrides_last"] = norm(merged.values[-1]) == v
+        ph = []
+        for sp in merged.values:
+            if norm(sp) == v:
+                continue
+            srcs = [b for b in bs if (b.node is sp) or (isinstance(sp, ast.Name) and b.name == sp.id and b.kind == "dict")]
+            if not srcs:
+                ph.append({"key_kind": "?", "all_declared": None, "elt": norm(sp), "guards": []})
+            for b in srcs:
+                key_kind = "?"
+                all_declared = None
+                it = norm(b.iter)
+                if it == "self.props.values()":
+                    all_declared = True
+                    if isinstance(b.key, ast.Attribute) and norm(b.key.value) == norm(b.target):
+                        key_kind = {"source": "JS", "name": "PY"}.get(b.key.attr, "?")
+                elif it in ("self.props", "self.props.keys()", "self.props.items()"):
+                    all_declared = True
+                    key_kind = "PY" if norm(b.key) == norm(b.target if not isinstance(b.target, ast.Tuple) else b.target.elts[0]) else "?"
+                else:
+                    # iterating a mapping built from the declared properties yields that mapping's keys
+                    inner = [ib for ib in bs if (ib.node is b.iter) or (isinstance(b.iter, ast.Name) and ib.name == b.iter.id)]
+                    for ib in inner:
+                        if ib.kind == "dict" and norm(ib.iter) == "self.props.values()" and not ib.guards \
+                                and isinstance(ib.key, ast.Attribute) and norm(ib.key.value) == norm(ib.target) \
+                                and norm(b.key) == norm(b.target):
+                            all_declared = True
+                            key_kind = {"source": "JS", "name": "PY"}.get(ib.key.attr, "?")
+                ph.append({"key_kind": key_kind, "all_declared": all_declared, "elt": norm(b.elt), "guards": b.guard_texts(), "key": norm(b.key)})
+        out["placeholders"] = ph
+        for b in bs:
+            if b.kind == "dict" and norm(b.iter) in iter_texts and isinstance(b.target, ast.Tuple) and len(b.target.elts) == 2:
+                out["result"] = b
+        out["body"] = vb
+        if out["result"] is not None:
+            break
+    return out
 
 # --------------------------------------------------------------------- G12
 @rule("G12", "containers are rebuilt member by member: nothing dropped, filtered or reordered")
@@ -1573,30 +1718,21 @@ def g12(ctx, res):
               reason="every item, in order, no filter: arrays keep their length and order")
     pc = ctx.func("Properties.__call__")
     v = pc.params[1].name
-    vpc = V(ctx, pc, keep=(v,)).body
-    bpc = builders(vpc)
+    M = ctx.get("props_call_model", lambda c: props_call_model(c))
     ok1 = None
-    for node in walk_own(vpc):
-        if isinstance(node, ast.Assign) and any(norm(t) == v for t in node.targets) and isinstance(node.value, ast.Dict) \
-                and node.value.keys and all(k is None for k in node.value.keys):
-            spreads = node.value.values
-            if norm(spreads[-1]) != v:
-                ok1 = False  # the supplied members do not override the placeholders
-                continue
-            for sp in spreads[:-1]:
-                srcs = [b for b in bpc if (b.node is sp) or (isinstance(sp, ast.Name) and b.name == sp.id and b.kind == "dict")]
-                for b in srcs:
-                    good = norm(b.iter) == "self.props.values()" and not b.guards and norm(b.elt) == "NotPassed()"
-                    ok1 = good if ok1 is None else (ok1 and good)
+    if M["merged"] is not None and M["placeholders"]:
+        ok1 = bool(M["overrides_last"]) and all(ph["all_declared"] and not ph["guards"] and ph["elt"] == "NotPassed()"
+                                               for ph in M["placeholders"])
+        if not ok1 and any(ph["all_declared"] is None for ph in M["placeholders"]) and M["overrides_last"]:
+            ok1 = None
     res.judge(ok1, pc, "value = {**{<placeholder for every declared property>}, **value}",
+              detail={"placeholders": M["placeholders"]},
               reason="placeholders for ALL declared properties (no filter); supplied members override placeholders")
     ok2 = None
-    for b in bpc:
-        if b.kind == "dict" and isinstance(b.target, ast.Tuple) and len(b.target.elts) == 2 and has("self[MV_k](MV_x)", b.elt):
-            k, sv = norm(b.target.elts[0]), norm(b.target.elts[1])
-            good = not b.guards and norm(b.iter) == f"{v}.items()" and norm(b.key) == f"self[{k}].name or {k}" \
-                and norm(b.elt) == f"self[{k}]({sv})"
-            ok2 = good if ok2 is None else (ok2 and good)
+    rb = M["result"]
+    if rb is not None:
+        k, sv = norm(rb.target.elts[0]), norm(rb.target.elts[1])
+        ok2 = not rb.guards and norm(rb.key) == f"self[{k}].name or {k}" and norm(rb.elt) == f"self[{k}]({sv})"
     res.judge(ok2, pc, "{self[key].name or key: self[key](sub_value) for key, sub_value in value.items()}",
               reason="every member of the merged dict is rebuilt: declared ones under their Python name, others under their JSON name")
     init = ctx.func("Object.__init__")
@@ -1638,12 +1774,12 @@ def g12(ctx, res):
 # --------------------------------------------------------------------- G13
 @rule("G13", "distinct members of an accepted object get distinct result keys")
 def g13(ctx, res):
-    pc = ctx.func("Properties.__call__")
-    v = pc.params[1].name
-    vpc = V(ctx, pc, keep=(v,)).body
+    M = ctx.get("props_call_model", lambda c: props_call_model(c))
+    pc = M["func"]
+    vpc = M.get("body") or []
     verdict = None
-    for b in builders(vpc):
-        if b.kind == "dict" and isinstance(b.target, ast.Tuple) and len(b.target.elts) == 2 and norm(b.iter) == f"{v}.items()":
+    for b in ([M["result"]] if M["result"] is not None else []):
+        if True:
             k = norm(b.target.elts[0])
             if norm(b.key) == f"self[{k}].name or {k}":
                 # declared members are renamed to their Python name, all others keep their JSON name: injective only if
